@@ -13,13 +13,24 @@
     each task, lets the pool complete them in the order [sched] on workers [< w] and unpickles
     the results.  [spec] / [independent] is the specification: a separate run on a fresh copy of
     the model with exactly that row's values, listed in input order under the input labels. *)
-From Coq Require Import List ZArith NArith.
-From Scan Require Import ScanGeneric ScanModel GenScanFacts ScanProofs.
+From Coq Require Import List ZArith NArith Sorting.Sorted.
+From Scan Require Import ScanGeneric ScanModel ScanNested ExpectedFacts GenScanFacts ScanProofs ScanProofs2.
 Import ListNotations.
 
-Theorem C09_facts_pinned : gen_scan_facts = mkScanFacts true true true true true true PhStepGrid.
+(** [C09_expected_tc / _ptc / _dups] (ExpectedFacts.v) say which form of the two proposed repairs the
+    tree is expected to have: the snapshot forms (TcRequested, PtcRequested, DupCollapse -- recorded
+    findings) until fixes/C09-tc-placeholder-start-point.diff and fixes/C09-duplicate-labels-refused.diff
+    are applied, the repaired forms afterwards (tools/c09_switch.py). *)
+Theorem C09_facts_pinned :
+  gen_scan_facts = mkScanFacts true true true true true true PhStepGrid C09_expected_tc C09_expected_ptc C09_expected_dups.
 Proof. vm_compute. reflexivity. Qed.
 Print Assumptions C09_facts_pinned.
+
+(** the nine entry points of scan.py / mc.py, each with its default worker, its result container,
+    the way it picks the pool and whether it tests the index first -- regenerated from the source *)
+Theorem C09_entry_points_pinned : gen_entry_points = expected_entry_points.
+Proof. vm_compute. reflexivity. Qed.
+Print Assumptions C09_entry_points_pinned.
 
 (** the pool: whatever the completion order and the worker that ran each task, the results are
     handed out in input order, one per task (any number of tasks, any schedule that completes
@@ -70,8 +81,8 @@ Theorem C09_steady_state_scan_equals_independent :
   forall (w : wkind) (md : mode) (m0 : mdl) (rows : list (label * row)),
     mode_ok md (length rows) ->
     scan_list_c gen_scan_facts w md m0 rows
-    = map (fun lr => (fst lr, independent_c w m0 (snd lr))) rows.
-Proof. exact (list_scan_pinned gen_scan_facts C09_facts_pinned). Qed.
+    = map (fun lr => (fst lr, independent_c (sf_tc_axis gen_scan_facts) w m0 (snd lr))) rows.
+Proof. exact (list_scan_pinned gen_scan_facts (f_equal sf_copies C09_facts_pinned)). Qed.
 Print Assumptions C09_steady_state_scan_equals_independent.
 
 (** ... and time-course scans (dict container) *)
@@ -80,16 +91,17 @@ Theorem C09_time_course_scan_equals_independent_partial :
     mode_ok md (length rows) ->
     NoDup (map fst rows) ->
     scan_dict_c gen_scan_facts w md m0 rows
-    = map (fun lr => (fst lr, independent_c w m0 (snd lr))) rows.
-Proof. exact (dict_scan_pinned gen_scan_facts C09_facts_pinned). Qed.
+    = map (fun lr => (fst lr, independent_c (sf_tc_axis gen_scan_facts) w m0 (snd lr))) rows.
+Proof. exact (dict_scan_pinned gen_scan_facts (f_equal sf_copies C09_facts_pinned)). Qed.
 Print Assumptions C09_time_course_scan_equals_independent_partial.
 
-(** duplicate index labels in the table: rows are lost, in every mode (known finding) *)
+(** duplicate index labels in the table: the dict-keyed CONTAINER loses rows, in every mode (this is
+    why the entry points must test the index first, see C09_dict_scan_checked_total below) *)
 Theorem C09_duplicate_labels_refuted :
   exists (w : wkind) (m0 : mdl) (rows : list (label * row)),
     forall md, mode_ok md (length rows) ->
       length (scan_dict_c gen_scan_facts w md m0 rows) <> length rows.
-Proof. exact (duplicate_labels_pinned gen_scan_facts C09_facts_pinned). Qed.
+Proof. exact (duplicate_labels_pinned gen_scan_facts (f_equal sf_copies C09_facts_pinned)). Qed.
 Print Assumptions C09_duplicate_labels_refuted.
 
 (** why the deep copy matters (the defect repaired by fixes/C09-sequential-shared-model.diff):
@@ -100,56 +112,74 @@ Theorem C09_sequential_shared_model_refuted :
   forall f : scan_facts, sf_copies f = false ->
     map first_flux (scan_dict_c f (WTimeCourse [0; 1]%Z) Seq stale_model stale_rows)
       = [Some (Num 3); Some (Num 3); Some (Num 3)]
-    /\ map first_flux (map (fun lr => (fst lr, independent_c (WTimeCourse [0; 1]%Z) stale_model (snd lr))) stale_rows)
+    /\ map first_flux (map (fun lr => (fst lr, independent_c (sf_tc_axis f) (WTimeCourse [0; 1]%Z) stale_model (snd lr))) stale_rows)
       = [Some (Num 1); Some (Num 2); Some (Num 3)].
 Proof. exact shared_model_stale. Qed.
 Print Assumptions C09_sequential_shared_model_refuted.
 
 (** a row that fails (integration failure, or ZeroDivisionError during the run) in a model that
-    can be evaluated at t = 0: the worker returns a NaN placeholder over the requested time points
-    with one NaN per variable -- by the theorems above at the row's own position and label *)
+    can be evaluated at t = 0: the worker returns a NaN placeholder with one NaN per variable over
+    the placeholder axis of the worker ([tc_placeholder_axis]: the requested points, with the start
+    point in front once the worker does what the integrators do) -- by the theorems above at the
+    row's own position and label.  (Statement generalised over the regenerated axis fact [ax].) *)
 Theorem C09_tc_failed_row_is_nan_placeholder :
-  forall (m : mdl) (c : cache) (tps : list Z),
+  forall (ax : tc_axis) (m : mdl) (c : cache) (tps : list Z),
     create_cache m = Ok c ->
     (integ_of (WTimeCourse tps) m c = IFail \/ integ_of (WTimeCourse tps) m c = IZeroDiv) ->
-    exists rv rp, work (WTimeCourse tps) m = (SOk rv rp, m) /\ map fst rv = tps /\
+    exists rv rp, work ax (WTimeCourse tps) m = (SOk rv rp, m) /\ map fst rv = tc_placeholder_axis ax tps /\
       Forall (fun tv => length (snd tv) = length (m_vars m) /\ Forall (fun v => v = NaN) (snd tv)) rv.
 Proof. exact tc_placeholder. Qed.
 Print Assumptions C09_tc_failed_row_is_nan_placeholder.
 
-(** ... of the right shape: the placeholder has the time axis of a successful row when the
-    requested time points start at 0.
-    FULL STATEMENT (false, see C09_tc_placeholder_shape_refuted): the same without [starts_at_zero]. *)
-Theorem C09_tc_placeholder_shape_partial :
+(** ... of the right shape, FULL STATEMENT: with the start point put in front as the integrators do
+    ([TcWithStart], fixes/C09-tc-placeholder-start-point.diff) the placeholder has the time axis of a
+    successful row for EVERY list of requested time points *)
+Theorem C09_tc_placeholder_shape :
   forall (tps : list Z) (m : mdl) (c : cache) (tc : list (Z * list val)) (m' : mdl) (c' : cache),
+    create_cache m = Ok c -> integ_of (WTimeCourse tps) m c = IOk tc ->
+    create_cache m' = Ok c' ->
+    (integ_of (WTimeCourse tps) m' c' = IFail \/ integ_of (WTimeCourse tps) m' c' = IZeroDiv) ->
+    exists rv rp rv' rp',
+      work TcWithStart (WTimeCourse tps) m = (SOk rv rp, m) /\ work TcWithStart (WTimeCourse tps) m' = (SOk rv' rp', m') /\
+      map fst rv' = map fst rv /\
+      Forall (fun tv => length (snd tv) = length (m_vars m') /\ Forall (fun v => v = NaN) (snd tv)) rv'.
+Proof. exact tc_placeholder_shape. Qed.
+Print Assumptions C09_tc_placeholder_shape.
+
+(** whatever the worker's axis fact: the same axis when the requested time points start at 0
+    (what holds of the snapshot tree; FULL STATEMENT without [starts_at_zero]: above, for TcWithStart;
+    false for TcRequested, see C09_tc_placeholder_shape_refuted) *)
+Theorem C09_tc_placeholder_shape_partial :
+  forall (ax : tc_axis) (tps : list Z) (m : mdl) (c : cache) (tc : list (Z * list val)) (m' : mdl) (c' : cache),
     starts_at_zero tps = true ->
     create_cache m = Ok c -> integ_of (WTimeCourse tps) m c = IOk tc ->
     create_cache m' = Ok c' ->
     (integ_of (WTimeCourse tps) m' c' = IFail \/ integ_of (WTimeCourse tps) m' c' = IZeroDiv) ->
     exists rv rp rv' rp',
-      work (WTimeCourse tps) m = (SOk rv rp, m) /\ work (WTimeCourse tps) m' = (SOk rv' rp', m') /\
+      work ax (WTimeCourse tps) m = (SOk rv rp, m) /\ work ax (WTimeCourse tps) m' = (SOk rv' rp', m') /\
       map fst rv' = map fst rv /\
       Forall (fun tv => length (snd tv) = length (m_vars m') /\ Forall (fun v => v = NaN) (snd tv)) rv'.
-Proof. exact tc_placeholder_shape. Qed.
+Proof. exact tc_placeholder_shape_partial. Qed.
 Print Assumptions C09_tc_placeholder_shape_partial.
 
-(** time points 1,2: a successful row has rows for t = 0,1,2 (the integrator inserts its start
-    point), the placeholder only for 1,2 (known finding) *)
+(** regression: with the requested points as placeholder axis ([TcRequested], the tree before the
+    repair) and time points 1,2: a successful row has rows for t = 0,1,2 (the integrator inserts its
+    start point), the placeholder only for 1,2 *)
 Theorem C09_tc_placeholder_shape_refuted :
   exists rv rp rv' rp',
-    work (WTimeCourse [1; 2]%Z) (sq_model 0) = (SOk rv rp, sq_model 0) /\
-    work (WTimeCourse [1; 2]%Z) (sq_model 100) = (SOk rv' rp', sq_model 100) /\
+    work TcRequested (WTimeCourse [1; 2]%Z) (sq_model 0) = (SOk rv rp, sq_model 0) /\
+    work TcRequested (WTimeCourse [1; 2]%Z) (sq_model 100) = (SOk rv' rp', sq_model 100) /\
     map fst rv = [0; 1; 2]%Z /\ map fst rv' = [1; 2]%Z /\ rv' = nan_rows (sq_model 100) [1; 2]%Z.
 Proof. exact tc_placeholder_misses_t0. Qed.
 Print Assumptions C09_tc_placeholder_shape_refuted.
 
 (** steady-state scans: a failing row is one NaN row, like the one row of a successful search *)
 Theorem C09_ss_placeholder_shape :
-  forall (m : mdl) (c : cache) (tc : list (Z * list val)) (m' : mdl) (c' : cache),
+  forall (ax : tc_axis) (m : mdl) (c : cache) (tc : list (Z * list val)) (m' : mdl) (c' : cache),
     create_cache m = Ok c -> integ_of WSteady m c = IOk tc ->
     create_cache m' = Ok c' -> (integ_of WSteady m' c' = IFail \/ integ_of WSteady m' c' = IZeroDiv) ->
     exists rv rp rv' rp',
-      work WSteady m = (SOk rv rp, m) /\ work WSteady m' = (SOk rv' rp', m') /\
+      work ax WSteady m = (SOk rv rp, m) /\ work ax WSteady m' = (SOk rv' rp', m') /\
       length rv' = length rv /\
       Forall (fun tv => length (snd tv) = length (m_vars m') /\ Forall (fun v => v = NaN) (snd tv)) rv'.
 Proof. exact ss_placeholder_shape. Qed.
@@ -159,10 +189,22 @@ Print Assumptions C09_ss_placeholder_shape.
     at t = 0 (division by zero) makes the worker call -- hence the whole scan -- raise instead of
     yielding a placeholder; a separate run raises as well (known finding) *)
 Theorem C09_unevaluable_row_refuted :
-  fst (work (WTimeCourse [0; 1]%Z) (apply_row [(10%N, 0%Z)] (guard_model 2))) = SCrash EZeroDiv
-  /\ independent_c (WTimeCourse [0; 1]%Z) (guard_model 2) [(10%N, 0%Z)] = OCrash EZeroDiv.
+  forall ax : tc_axis,
+  fst (work ax (WTimeCourse [0; 1]%Z) (apply_row [(10%N, 0%Z)] (guard_model 2))) = SCrash EZeroDiv
+  /\ independent_c ax (WTimeCourse [0; 1]%Z) (guard_model 2) [(10%N, 0%Z)] = OCrash EZeroDiv.
 Proof. exact unevaluable_row_raises. Qed.
 Print Assumptions C09_unevaluable_row_refuted.
+
+(** ... and why a placeholder built WITHOUT evaluating the model would not repair it: whatever data
+    a result carries, every view of it against that row's model raises ([_compute_args] ->
+    [Model.get_args_time_course], and even the column names, [get_arg_names] ->
+    [get_derived_variables], go through [_create_cache], which evaluates the model at t = 0) *)
+Theorem C09_unevaluable_row_any_placeholder_view_refuted :
+  forall (rv : list (Z * list val)),
+    let m := apply_row [(10%N, 0%Z)] (guard_model 2) in
+    fst (view (SOk rv (plain_of (m_pars m))) m) = OCrash EZeroDiv.
+Proof. exact unevaluable_row_any_placeholder_view_raises. Qed.
+Print Assumptions C09_unevaluable_row_any_placeholder_view_refuted.
 
 (** protocol scans: the placeholder's time axis IS the axis of a successful run (t = 0, then
     [time_points_per_step] points per step), for every protocol and every number of points, for
@@ -173,7 +215,7 @@ Theorem C09_protocol_placeholder_axis :
     forall (tends : list T) (tpps : nat), tends <> [] ->
       placeholder_axis T lin zero (sf_protocol_axis gen_scan_facts) tends tpps
       = success_axis T lin zero tends tpps.
-Proof. exact (protocol_axis_pinned gen_scan_facts C09_facts_pinned). Qed.
+Proof. exact (protocol_axis_pinned gen_scan_facts (f_equal sf_protocol_axis C09_facts_pinned)). Qed.
 Print Assumptions C09_protocol_placeholder_axis.
 
 (** the axis repaired by fixes/C09-protocol-placeholder-axis.diff was one row short, always *)
@@ -186,14 +228,193 @@ Theorem C09_protocol_unfixed_axis_refuted :
 Proof. exact protocol_unfixed_axis_short. Qed.
 Print Assumptions C09_protocol_unfixed_axis_refuted.
 
+(** ---- the index test of the dict-keyed entry points ([_require_unique_index]) ----
+    FULL STATEMENT for the dict-keyed containers: with the test in front, for EVERY table: pairwise
+    different labels give exactly the independent runs in input order, anything else is refused
+    (ValueError) -- never a table with rows missing *)
+Theorem C09_dict_scan_checked_total :
+  forall (M Row Lbl Sim Out : Type) (apply_row : Row -> M -> M) (work : M -> Sim * M)
+         (view : Sim -> M -> Out * M) (lbl_eqb : Lbl -> Lbl -> bool),
+    (forall a b, lbl_eqb a b = true <-> a = b) ->
+    forall (copies : bool) (md : mode) (m0 : M) (rows : list (Lbl * Row)),
+    (md = Seq -> copies = true) ->
+    mode_ok md (length rows) ->
+    (NoDup (map fst rows) ->
+       scan_dict_checked M Row Lbl Sim Out apply_row work view lbl_eqb true copies md m0 rows
+       = Some (map (fun lr => (fst lr, independent M Row Sim Out apply_row work view m0 (snd lr))) rows)) /\
+    (~ NoDup (map fst rows) ->
+       scan_dict_checked M Row Lbl Sim Out apply_row work view lbl_eqb true copies md m0 rows = None).
+Proof. exact scan_dict_checked_total. Qed.
+Print Assumptions C09_dict_scan_checked_total.
+
+(** the executable instance, for any facts with the deep copy and the index test (the tree after
+    fixes/C09-duplicate-labels-refused.diff) *)
+Theorem C09_time_course_scan_checked_total :
+  forall f : scan_facts, sf_copies f = true -> sf_dups f = DupRefuse ->
+  forall (w : wkind) (md : mode) (m0 : mdl) (rows : list (label * row)),
+    mode_ok md (length rows) ->
+    (NoDup (map fst rows) ->
+       scan_dict_checked_c f w md m0 rows
+       = Some (map (fun lr => (fst lr, independent_c (sf_tc_axis f) w m0 (snd lr))) rows)) /\
+    (~ NoDup (map fst rows) -> scan_dict_checked_c f w md m0 rows = None).
+Proof. exact dict_checked_refusing. Qed.
+Print Assumptions C09_time_course_scan_checked_total.
+
+(** regression: without the test ([DupCollapse], the tree before the repair) a table with equal
+    labels is ACCEPTED and comes back with fewer blocks than rows, in every mode *)
+Theorem C09_duplicate_labels_collapse_refuted :
+  forall f : scan_facts, sf_copies f = true -> sf_dups f = DupCollapse ->
+  exists (w : wkind) (m0 : mdl) (rows : list (label * row)),
+    forall md, mode_ok md (length rows) ->
+      exists t, scan_dict_checked_c f w md m0 rows = Some t /\ length t <> length rows.
+Proof. exact dict_collapsing_loses_rows. Qed.
+Print Assumptions C09_duplicate_labels_collapse_refuted.
+
+(** ---- every entry point, explicitly ----
+    For each of the nine entry points of the pinned table (scan.steady_state / time_course / protocol /
+    protocol_time_course, mc.steady_state / time_course / protocol / protocol_time_course /
+    scan_steady_state): ANY semantics of the five workers (each with its own simulation call and its
+    own placeholder), any lazy view, any model, any table, any admissible mode (mc.* always uses the
+    pool), any number of workers and completion order: the entry point's result is the table of
+    independent runs -- for the list container always, for the dict-keyed ones when the labels are
+    pairwise different, for the nested Monte-Carlo scan per outer row the inner table of independent
+    runs on the model with the outer row applied first (its inner scan is sequential, so it needs the
+    deep copy in every mode). *)
+Theorem C09_every_entry_point_equals_independent :
+  forall (M Row Lbl Lbl2 Sim Out : Type) (apply_row : Row -> M -> M) (workers : wname -> M -> Sim * M)
+         (view : Sim -> M -> Out * M) (lbl_eqb : Lbl -> Lbl -> bool),
+    (forall a b, lbl_eqb a b = true <-> a = b) ->
+    forall (ep : entry_point) (copies : bool) (md : mode) (m0 : M) (inner : list (Lbl2 * Row)) (rows : list (Lbl * Row)),
+    (md = Seq -> copies = true) ->
+    (ep_container ep = CDictOfScans -> copies = true) ->
+    ep_mode_ok ep md (length rows) ->
+    (ep_container ep = CList \/ NoDup (map fst rows)) ->
+    entry_scan M Row Lbl Lbl2 Sim Out apply_row workers view lbl_eqb ep copies md m0 inner rows
+    = match ep_container ep with
+      | CList | CDict =>
+          EpTable (map (fun lr => (fst lr, independent M Row Sim Out apply_row (workers (ep_worker ep)) view m0 (snd lr))) rows)
+      | CDictOfScans =>
+          EpNested (map (fun lr => (fst lr,
+                      map (fun lr2 => (fst lr2, independent M Row Sim Out apply_row (workers WkSteadyState) view
+                                                  (apply_row (snd lr) m0) (snd lr2))) inner)) rows)
+      end.
+Proof. exact entry_point_spec. Qed.
+Print Assumptions C09_every_entry_point_equals_independent.
+
+(** ... and an entry point that tests the index refuses every table with equal labels *)
+Theorem C09_every_checking_entry_point_refuses_duplicates :
+  forall (M Row Lbl Lbl2 Sim Out : Type) (apply_row : Row -> M -> M) (workers : wname -> M -> Sim * M)
+         (view : Sim -> M -> Out * M) (lbl_eqb : Lbl -> Lbl -> bool),
+    (forall a b, lbl_eqb a b = true <-> a = b) ->
+    forall (ep : entry_point) (copies : bool) (md : mode) (m0 : M) (inner : list (Lbl2 * Row)) (rows : list (Lbl * Row)),
+    ep_container ep <> CList -> ep_checks_dups ep = true -> ~ NoDup (map fst rows) ->
+    entry_scan M Row Lbl Lbl2 Sim Out apply_row workers view lbl_eqb ep copies md m0 inner rows = EpRefused.
+Proof. exact entry_point_refuses. Qed.
+Print Assumptions C09_every_checking_entry_point_refuses_duplicates.
+
+(** the nested Monte-Carlo scan on its own (mc.scan_steady_state): outer level in the pool or
+    sequential, inner level always sequential; whatever the index test *)
+Theorem C09_nested_mc_scan_equals_independent :
+  forall (M Row Lbl Lbl2 Sim Out : Type) (apply_row : Row -> M -> M) (work : M -> Sim * M)
+         (view : Sim -> M -> Out * M) (lbl_eqb : Lbl -> Lbl -> bool),
+    (forall a b, lbl_eqb a b = true <-> a = b) ->
+    forall (refuse : bool) (md : mode) (m0 : M) (inner : list (Lbl2 * Row)) (rows : list (Lbl * Row)),
+    mode_ok md (length rows) -> NoDup (map fst rows) ->
+    nested_scan M Row Lbl Lbl2 Sim Out apply_row work view lbl_eqb refuse true md m0 inner rows
+    = Some (map (fun lr => (fst lr,
+              map (fun lr2 => (fst lr2, independent M Row Sim Out apply_row work view (apply_row (snd lr) m0) (snd lr2))) inner))
+            rows).
+Proof. exact nested_scan_spec. Qed.
+Print Assumptions C09_nested_mc_scan_equals_independent.
+
+(** ---- the number of rows relative to workers: ANY partition of the rows into batches ----
+    The ordered map is handed [batches] of tasks instead of single tasks (pebble's chunksize, or any
+    hand-made partition); each batch is worked off in order by one worker, the batches complete in ANY
+    order on any workers ([sched]), the ordered map hands the batch results out in batch order and
+    they are concatenated.  The flattened result is [map f] of the tasks in the order in which the
+    batches list them ... *)
+Theorem C09_any_batching_any_order :
+  forall (T R : Type) (f : T -> R) (batches : list (list T)) (sched : list (nat * nat)),
+    (forall i, i < length batches -> In i (map fst sched)) ->
+    concat (collect (pool_run sched (map f) batches)) = map f (concat batches).
+Proof. exact pool_batches_flat. Qed.
+Print Assumptions C09_any_batching_any_order.
+
+(** ... hence aligned with the input rows for every worker function EXACTLY when the partition keeps
+    the input order (contiguous chunks of any sizes; one row per batch is what the tree does) *)
+Theorem C09_batching_aligned_iff_order_preserving :
+  forall (T : Type) (tasks : list T) (batches : list (list T)) (sched : list (nat * nat)),
+    (forall i, i < length batches -> In i (map fst sched)) ->
+    ((forall (R : Type) (f : T -> R), concat (collect (pool_run sched (map f) batches)) = map f tasks)
+     <-> concat batches = tasks).
+Proof. exact batching_aligned_iff. Qed.
+Print Assumptions C09_batching_aligned_iff_order_preserving.
+
+(** the whole scan over batches, heap semantics included (a batch runs sequentially in ONE process on
+    that process' private heap and travels back as ONE message, so sharing inside a batch survives
+    the pickling): with one deep copy per task, for any partition and any completion order, the
+    container shows the independent runs of the rows in the order in which the batches list them *)
+Theorem C09_batched_scan_equals_independent :
+  forall (M Row Lbl Sim Out : Type) (apply_row : Row -> M -> M) (work : M -> Sim * M)
+         (view : Sim -> M -> Out * M) (sched : list (nat * nat)) (m0 : M) (rows : list (Lbl * Row))
+         (batches : list (list (Lbl * Row))),
+    concat batches = rows ->
+    (forall i, i < length batches -> In i (map fst sched)) ->
+    scan_list_batched M Row Lbl Sim Out apply_row work view true sched m0 batches
+    = map (fun lr => (fst lr, independent M Row Sim Out apply_row work view m0 (snd lr))) rows.
+Proof. exact scan_list_batched_order_preserving. Qed.
+Print Assumptions C09_batched_scan_equals_independent.
+
+(** regression (seeded change C09-1): rows dealt round-robin into two batches and the batch results
+    concatenated -- three rows come back in the order 0, 2, 1 *)
+Theorem C09_round_robin_batches_refuted :
+  deal 2 stale_rows = [[(0, [(10%N, 1)]); (2, [(10%N, 3)])]; [(1, [(10%N, 2)])]]%Z /\
+  forall ax, map first_flux (scan_list_batched_c true ax (WTimeCourse [0; 1]%Z) [(1, 0); (0, 1)] stale_model (deal 2 stale_rows))
+             = [Some (Num 1); Some (Num 3); Some (Num 2)].
+Proof. exact round_robin_misaligned. Qed.
+Print Assumptions C09_round_robin_batches_refuted.
+
+(** regression: with batches the deep copy matters in PARALLEL mode too -- one batch of three rows
+    without it shows 3,3,3, with it 1,2,3 *)
+Theorem C09_batched_without_copy_refuted :
+  forall ax, map first_flux (scan_list_batched_c false ax (WTimeCourse [0; 1]%Z) [(0, 0)] stale_model [stale_rows])
+             = [Some (Num 3); Some (Num 3); Some (Num 3)]
+  /\ map first_flux (scan_list_batched_c true ax (WTimeCourse [0; 1]%Z) [(0, 0)] stale_model [stale_rows])
+             = [Some (Num 1); Some (Num 2); Some (Num 3)].
+Proof. exact batched_without_copy_stale. Qed.
+Print Assumptions C09_batched_without_copy_refuted.
+
+(** ---- protocol-time-course scans: the placeholder's axis ----
+    [full] is the sorted join of the protocol's step ends and the requested points (pandas / numpy:
+    external, only its sortedness is used).  With the repaired worker ([PtcJoined]) the placeholder's
+    axis IS the axis a successful [simulate_protocol_time_course] run reports (t = 0, then per step
+    the points of [full] in (t_start, t_end]), for every protocol with non-decreasing step ends and
+    every list of requested points *)
+Theorem C09_ptc_placeholder_axis :
+  forall (full : list Z), StronglySorted Z.le full ->
+  forall (ends tps : list Z), ends <> [] -> chain 0%Z ends ->
+    ptc_placeholder_axis full PtcJoined ends tps = ptc_success_axis full ends.
+Proof. exact ptc_placeholder_axis_ok. Qed.
+Print Assumptions C09_ptc_placeholder_axis.
+
+(** regression: the requested points as axis ([PtcRequested], the tree before the repair): steps
+    ending at 2 and 4, requested points 1, 3, 5 -- success t = 0,1,2,3,4, placeholder t = 1,3,5 *)
+Theorem C09_ptc_requested_axis_refuted :
+  let full := [1; 2; 3; 4; 5]%Z in
+  ptc_success_axis full [2; 4]%Z = [0; 1; 2; 3; 4]%Z /\
+  ptc_placeholder_axis full PtcRequested [2; 4]%Z [1; 3; 5]%Z = [1; 3; 5]%Z /\
+  ptc_placeholder_axis full PtcJoined [2; 4]%Z [1; 3; 5]%Z = [0; 1; 2; 3; 4]%Z.
+Proof. exact ptc_requested_axis_wrong. Qed.
+Print Assumptions C09_ptc_requested_axis_refuted.
+
 (** non-vacuity: three rows, two workers, tasks completing in the order 2, 0, 1; the model whose
     parameter is assigned from the scanned initial value *)
 Example C09_nonvacuous :
   let md := Par 2 [(2, 1); (0, 0); (1, 1)] in
   mode_ok md (length stale_rows) /\ NoDup (map fst stale_rows) /\
-  map first_flux (scan_dict_c expected_facts (WTimeCourse [0; 1]%Z) md stale_model stale_rows)
+  map first_flux (scan_dict_c nonvac_facts (WTimeCourse [0; 1]%Z) md stale_model stale_rows)
     = [Some (Num 1); Some (Num 2); Some (Num 3)] /\
-  map first_flux (scan_dict_c expected_facts (WTimeCourse [0; 1]%Z) Seq stale_model stale_rows)
+  map first_flux (scan_dict_c nonvac_facts (WTimeCourse [0; 1]%Z) Seq stale_model stale_rows)
     = [Some (Num 1); Some (Num 2); Some (Num 3)].
 Proof. exact nonvacuous_schedule. Qed.
 Print Assumptions C09_nonvacuous.
